@@ -5,6 +5,15 @@
 //	pairs/race   every pair of methods hammered concurrently under the race detector
 //	ctl          controlled schedules (mutex shim) of short programs, porcupine map model
 //	free/*       free-running short histories (race detector on), porcupine map model
+//	bulk/*       multi-key writes against whole-map snapshots on maps of 130..513 keys
+//	big-delete   bulk Delete of >1000 keys next to writers of private keys
+//
+// Histories (ctl, free) cover, besides the plain calls: the zero value as a stored
+// value, Delete / GetWithMap with no keys, a repeated key, a never-stored key, a map
+// that also holds 33..257 entries no operation names ("ballast", see fold), rounds of
+// SetNx on an absent key, of SetX on an absent key and of SetX against the one Delete
+// of a present key, a kept All() sequence abandoned after one pair and then re-run,
+// and (controlled schedules only) Range / All stopped early by the caller.
 package main
 
 import (
@@ -129,6 +138,28 @@ func kvModel(init map[int64]int64) porcupine.Model {
 				}
 				return o.Extra == sortedInts(vs), s
 			case "Range", "All":
+				if o.Arg > 0 {
+					// the caller stopped the iteration after Arg pairs: the pairs it was
+					// given are distinct entries of the map at one instant, as many as
+					// asked for (or the whole map when that is smaller)
+					if strings.Contains(o.Extra, "DUPLICATE") {
+						return false, s
+					}
+					want := int(o.Arg)
+					if len(m) < want {
+						want = len(m)
+					}
+					got := decode(kvState(o.Extra))
+					if int(o.Out) != want || len(got) != want {
+						return false, s
+					}
+					for k, v := range got {
+						if mv, ok := m[k]; !ok || mv != v {
+							return false, s
+						}
+					}
+					return true, s
+				}
 				return o.Extra == pairsString(m), s
 			case "GetWithMap":
 				// Extra = "keys|result pairs"; absent keys keep the sentinel -1
@@ -175,7 +206,10 @@ type opSpec struct {
 	Key  int64
 	Val  int64
 	Keys []int64
-	Seq  iter.Seq2[int64, int64] `json:"-"` // KeptAll only
+	// Limit > 0: Range / All is stopped by the caller (callback returns false, loop
+	// breaks) after Limit pairs
+	Limit int
+	Seq   iter.Seq2[int64, int64] `json:"-"` // KeptAll only
 }
 
 func (o opSpec) String() string {
@@ -186,13 +220,110 @@ func (o opSpec) String() string {
 		return fmt.Sprintf("%s(%v)", o.Kind, o.Keys)
 	case "Get", "Has", "Contains", "GetWithLock":
 		return fmt.Sprintf("%s(%d)", o.Kind, o.Key)
+	case "Range", "All", "KeptAll":
+		if o.Limit > 0 {
+			return fmt.Sprintf("%s[stop after %d]", o.Kind, o.Limit)
+		}
 	}
 	return o.Kind
 }
 
 const iterBound = 64
 
-func do(kv *mapz.SafeKV[int64, int64], rec *hist.Recorder, client int, o opSpec) {
+// Ballast: a history may run on a map that also holds a block of entries that no
+// operation of the history names (so that the map is well above any size at which an
+// implementation might switch representation or start memoising). The only
+// operations that touch the block are the whole-map ones: every snapshot must contain
+// the block completely and unchanged (as long as no Clear has happened) or not at all
+// (afterwards). fold() replaces a complete block by the single pseudo entry
+// pseudoKey=pseudoVal, an absent block by nothing, anything else by tornKey; the
+// model then treats the pseudo entry as one more entry of the initial map.
+const (
+	ballastKey0 = 1000
+	ballastVal0 = 5_000_000
+	pseudoKey   = -1
+	pseudoVal   = 7_777_777
+	tornKey     = -2
+)
+
+type store struct {
+	*mapz.SafeKV[int64, int64]
+	ballast int
+}
+
+func (s *store) foldLen(n int) int64 {
+	if s.ballast > 0 && n >= s.ballast {
+		return int64(n - s.ballast + 1)
+	}
+	return int64(n)
+}
+
+// foldBlock: xs are the members of a result that lie at or above base; they stand
+// for the block iff they are exactly base..base+ballast-1, each once.
+func (s *store) foldBlock(xs []int64, base int64) (complete, none bool) {
+	if len(xs) == 0 {
+		return false, true
+	}
+	if len(xs) != s.ballast {
+		return false, false
+	}
+	seen := make(map[int64]bool, len(xs))
+	for _, x := range xs {
+		if x < base || x >= base+int64(s.ballast) || seen[x] {
+			return false, false
+		}
+		seen[x] = true
+	}
+	return true, false
+}
+
+func (s *store) foldList(xs []int64, base, pseudo int64) []int64 {
+	if s.ballast == 0 {
+		return xs
+	}
+	var hot, blk []int64
+	for _, x := range xs {
+		if x >= base {
+			blk = append(blk, x)
+		} else {
+			hot = append(hot, x)
+		}
+	}
+	switch complete, none := s.foldBlock(blk, base); {
+	case complete:
+		hot = append(hot, pseudo)
+	case !none:
+		hot = append(hot, tornKey)
+	}
+	return hot
+}
+
+func (s *store) fold(m map[int64]int64) map[int64]int64 {
+	if s.ballast == 0 {
+		return m
+	}
+	out := map[int64]int64{}
+	good, bad := 0, 0
+	for k, v := range m {
+		switch {
+		case k < ballastKey0:
+			out[k] = v
+		case k < ballastKey0+int64(s.ballast) && v == ballastVal0+(k-ballastKey0):
+			good++
+		default:
+			bad++
+		}
+	}
+	switch {
+	case good == s.ballast && bad == 0:
+		out[pseudoKey] = pseudoVal
+	case good != 0 || bad != 0:
+		out[tornKey] = int64(good)
+	}
+	return out
+}
+
+func do(kv *store, rec *hist.Recorder, client int, o opSpec) {
 	switch o.Kind {
 	case "Get":
 		op := rec.Begin(client, o.Kind, o.Key, 0)
@@ -234,39 +365,53 @@ func do(kv *mapz.SafeKV[int64, int64], rec *hist.Recorder, client int, o opSpec)
 	case "Len":
 		op := rec.Begin(client, o.Kind, 0, 0)
 		n := kv.Len()
-		rec.End(op, int64(n), true, "")
+		rec.End(op, kv.foldLen(n), true, "")
 	case "Keys":
 		op := rec.Begin(client, o.Kind, 0, 0)
 		ks := kv.Keys()
-		rec.End(op, int64(len(ks)), true, sortedInts(ks))
+		fk := kv.foldList(ks, ballastKey0, pseudoKey)
+		rec.End(op, int64(len(fk)), true, sortedInts(fk))
 		for i := range ks { // a returned slice is the caller's: writing to it must not reach the map or a later result
 			ks[i] = -7000 - int64(i)
 		}
 	case "Values":
 		op := rec.Begin(client, o.Kind, 0, 0)
 		vs := kv.Values()
-		rec.End(op, int64(len(vs)), true, sortedInts(vs))
+		fv := kv.foldList(vs, ballastVal0, pseudoVal)
+		rec.End(op, int64(len(fv)), true, sortedInts(fv))
 		for i := range vs {
 			vs[i] = -8000 - int64(i)
 		}
 	case "Range":
-		op := rec.Begin(client, o.Kind, 0, 0)
+		op := rec.Begin(client, o.Kind, int64(o.Limit), 0)
 		m := map[int64]int64{}
 		n := 0
 		dup := false
+		bound := iterBound + kv.ballast
+		if o.Limit > 0 {
+			bound = o.Limit
+		}
 		kv.Range(func(k, v int64) bool {
+			if n >= bound {
+				return false // what Range does with the callback's answer is not this property's business
+			}
 			if _, ok := m[k]; ok {
 				dup = true
 			}
 			m[k] = v
 			n++
-			return n < iterBound
+			return n < bound
 		})
+		out := int64(n)
+		if o.Limit == 0 {
+			m = kv.fold(m)
+			out = int64(len(m))
+		}
 		ex := pairsString(m)
 		if dup {
 			ex += "DUPLICATE-KEY"
 		}
-		rec.End(op, int64(n), true, ex)
+		rec.End(op, out, true, ex)
 	case "All", "KeptAll":
 		// "KeptAll": the sequence was obtained from All() before the history began and is
 		// run now (and again later); it must enumerate the map as it is while it runs.
@@ -274,25 +419,34 @@ func do(kv *mapz.SafeKV[int64, int64], rec *hist.Recorder, client int, o opSpec)
 		if seq == nil {
 			seq = kv.All()
 		}
-		op := rec.Begin(client, "All", 0, 0)
+		op := rec.Begin(client, "All", int64(o.Limit), 0)
 		m := map[int64]int64{}
 		n := 0
 		dup := false
+		bound := iterBound + kv.ballast
+		if o.Limit > 0 {
+			bound = o.Limit
+		}
 		for k, v := range seq {
 			if _, ok := m[k]; ok {
 				dup = true
 			}
 			m[k] = v
 			n++
-			if n >= iterBound {
+			if n >= bound {
 				break
 			}
+		}
+		out := int64(n)
+		if o.Limit == 0 {
+			m = kv.fold(m)
+			out = int64(len(m))
 		}
 		ex := pairsString(m)
 		if dup {
 			ex += "DUPLICATE-KEY"
 		}
-		rec.End(op, int64(n), true, ex)
+		rec.End(op, out, true, ex)
 	case "GetWithMap":
 		op := rec.Begin(client, o.Kind, 0, 0)
 		m := map[int64]int64{}
@@ -309,7 +463,7 @@ func do(kv *mapz.SafeKV[int64, int64], rec *hist.Recorder, client int, o opSpec)
 			for k, v := range m {
 				cp[k] = v
 			}
-			snap = pairsString(cp)
+			snap = pairsString(kv.fold(cp))
 			m[o.Key] = o.Val
 		})
 		rec.End(op, 0, true, snap)
@@ -328,29 +482,68 @@ var progKinds = []string{"Get", "Has", "Set", "Set", "SetNx", "SetNx", "SetNx", 
 
 const nKeys = 3
 
-func genOp(rng *ev.Rand, kind string, t, j int) opSpec {
+// absentKey is never stored by anybody: naming it in Delete / GetWithMap is legal and
+// changes nothing.
+const absentKey = 77
+
+// genOp: stop = the engine can decide a lock that is never released (controlled
+// schedules), so Range / All may be stopped early by the caller.
+func genOp(rng *ev.Rand, kind string, t, j int, stop bool) opSpec {
 	o := opSpec{Kind: kind, Key: int64(rng.Intn(nKeys)), Val: int64(t*100 + j + 1)}
-	if kind == "Delete" || kind == "GetWithMap" {
+	switch kind {
+	case "Set", "SetNx", "SetX", "MapSnapSet":
+		if rng.Chance(1, 8) {
+			o.Val = 0 // the zero value is a value like any other: the key is present afterwards
+		}
+	case "Delete", "GetWithMap":
 		n := rng.Range(1, nKeys)
 		p := rng.Perm(nKeys)
 		for _, k := range p[:n] {
 			o.Keys = append(o.Keys, int64(k))
 		}
 		sort.Slice(o.Keys, func(a, b int) bool { return o.Keys[a] < o.Keys[b] })
+		switch rng.Intn(10) {
+		case 0: // no keys at all
+			o.Keys = nil
+		case 1: // the same key twice in one call
+			if kind == "Delete" {
+				o.Keys = append(o.Keys, o.Keys[0])
+			}
+		case 2: // a key that is never in the map
+			o.Keys = append(o.Keys, absentKey)
+		}
+	case "Range", "All":
+		if stop && rng.Chance(1, 3) {
+			o.Limit = rng.Range(1, 2)
+		}
 	}
 	return o
 }
 
 type config struct {
 	Init     map[int64]int64
+	Ballast  int // further entries that no operation names, see fold
 	Family   string
+	RoundKey int64 // the key the round-* families are about
 	Threads  [][]opSpec
 	Strategy string
 }
 
+// modelInit: the initial map as the model sees it (the ballast as one pseudo entry)
+func (c config) modelInit() map[int64]int64 {
+	m := map[int64]int64{}
+	for k, v := range c.Init {
+		m[k] = v
+	}
+	if c.Ballast > 0 {
+		m[pseudoKey] = pseudoVal
+	}
+	return m
+}
+
 func (c config) String() string {
 	var b strings.Builder
-	fmt.Fprintf(&b, "init={%s} family=%s sched=%s;", pairsString(c.Init), c.Family, c.Strategy)
+	fmt.Fprintf(&b, "init={%s} ballast=%d family=%s sched=%s;", pairsString(c.Init), c.Ballast, c.Family, c.Strategy)
 	for i, t := range c.Threads {
 		fmt.Fprintf(&b, " T%d:", i)
 		for _, o := range t {
@@ -360,17 +553,22 @@ func (c config) String() string {
 	return b.String()
 }
 
-func genConfig(rng *ev.Rand, maxThreads, maxOps, maxTotal int) config {
+func genConfig(rng *ev.Rand, maxThreads, maxOps, maxTotal int, controlled bool) config {
 	c := config{Init: map[int64]int64{}}
 	for k := 0; k < nKeys; k++ {
 		if rng.Chance(1, 3) {
 			c.Init[int64(k)] = int64(9000 + k)
 		}
 	}
+	if rng.Chance(1, 8) {
+		c.Ballast = rng.Pick(33, 64, 130, 257)
+	}
+	stop := controlled && c.Ballast == 0
 	switch rng.Intn(10) {
 	case 0: // round: k concurrent SetNx on one absent key
 		c.Family = "round-setnx"
 		key := int64(rng.Intn(nKeys))
+		c.RoundKey = key
 		delete(c.Init, key)
 		for t := 0; t < rng.Range(2, maxThreads); t++ {
 			c.Threads = append(c.Threads, []opSpec{{Kind: "SetNx", Key: key, Val: int64(t*100 + 1)}})
@@ -378,11 +576,30 @@ func genConfig(rng *ev.Rand, maxThreads, maxOps, maxTotal int) config {
 	case 1: // SetX on an absent key racing with Delete/SetNx of it
 		c.Family = "round-setx"
 		key := int64(rng.Intn(nKeys))
+		c.RoundKey = key
 		delete(c.Init, key)
 		c.Threads = append(c.Threads, []opSpec{{Kind: "SetX", Key: key, Val: 1}, {Kind: "Has", Key: key}})
 		c.Threads = append(c.Threads, []opSpec{{Kind: "SetX", Key: key, Val: 101}, {Kind: "Get", Key: key}})
 		if rng.Bool() {
 			c.Threads = append(c.Threads, []opSpec{{Kind: "Len"}, {Kind: "Keys"}})
+		}
+	case 2: // a present key is deleted once while SetX calls on it are in flight; nobody else creates it
+		c.Family = "round-setx-delete"
+		key := int64(rng.Intn(nKeys))
+		c.RoundKey = key
+		c.Init[key] = 9000 + key
+		nt := rng.Range(2, maxThreads)
+		del := rng.Intn(nt)
+		for t := 0; t < nt; t++ {
+			if t == del {
+				c.Threads = append(c.Threads, []opSpec{{Kind: "Delete", Keys: []int64{key}}})
+				continue
+			}
+			ops := []opSpec{{Kind: "SetX", Key: key, Val: int64(t*100 + 1)}}
+			if rng.Bool() {
+				ops = append(ops, opSpec{Kind: "SetX", Key: key, Val: int64(t*100 + 2)})
+			}
+			c.Threads = append(c.Threads, ops)
 		}
 	default:
 		c.Family = "mixed"
@@ -399,7 +616,7 @@ func genConfig(rng *ev.Rand, maxThreads, maxOps, maxTotal int) config {
 			total += n
 			var ops []opSpec
 			for j := 0; j < n; j++ {
-				ops = append(ops, genOp(rng, progKinds[rng.Intn(len(progKinds))], t, j))
+				ops = append(ops, genOp(rng, progKinds[rng.Intn(len(progKinds))], t, j, stop))
 			}
 			c.Threads = append(c.Threads, ops)
 		}
@@ -407,17 +624,24 @@ func genConfig(rng *ev.Rand, maxThreads, maxOps, maxTotal int) config {
 	return c
 }
 
-func setup(cfg config) *mapz.SafeKV[int64, int64] {
-	kv := mapz.NewSafeKV[int64, int64](0)
+func setup(cfg config) *store {
+	kv := &store{SafeKV: mapz.NewSafeKV[int64, int64](0), ballast: cfg.Ballast}
 	for k, v := range cfg.Init {
 		kv.Set(k, v)
+	}
+	for i := 0; i < cfg.Ballast; i++ {
+		kv.Set(ballastKey0+int64(i), ballastVal0+int64(i))
 	}
 	return kv
 }
 
-func tail(kv *mapz.SafeKV[int64, int64], rec *hist.Recorder, kept iter.Seq2[int64, int64]) {
+func tail(kv *store, rec *hist.Recorder, kept iter.Seq2[int64, int64]) {
 	cl := rec.AddClient()
 	rec.Quiesce()
+	if kv.ballast == 0 {
+		// the kept sequence is abandoned after one pair, then run in full (twice)
+		do(kv, rec, cl, opSpec{Kind: "KeptAll", Seq: kept, Limit: 1})
+	}
 	do(kv, rec, cl, opSpec{Kind: "KeptAll", Seq: kept})
 	do(kv, rec, cl, opSpec{Kind: "Len"})
 	do(kv, rec, cl, opSpec{Kind: "Keys"})
@@ -449,6 +673,57 @@ func judge(c *ev.Case, cfg config, ops []hist.Op, extra string) bool {
 	for k := range kinds {
 		c.Add("overlapped/"+k, 1)
 	}
+	// what the history contained, argument class by argument class
+	for _, o := range ops {
+		switch o.Kind {
+		case "Set", "MapSnapSet":
+			if o.Arg2 == 0 {
+				c.Add("zero_value_stored", 1)
+			}
+		case "SetNx", "SetX":
+			if o.OK && o.Arg2 == 0 {
+				c.Add("zero_value_stored", 1)
+			}
+		case "Get":
+			if o.OK && o.Out == 0 {
+				c.Add("zero_value_read", 1)
+			}
+		case "Delete":
+			if o.Extra == "[]" {
+				c.Add("delete_no_keys", 1)
+			}
+		case "GetWithMap":
+			if strings.HasPrefix(o.Extra, "[]|") {
+				c.Add("getwithmap_no_keys", 1)
+			}
+		case "Range", "All":
+			if o.Arg > 0 && o.Out == o.Arg && o.Client < len(cfg.Threads) {
+				c.Add("stopped_early/"+o.Kind, 1)
+			}
+			if cfg.Ballast > 0 && o.Overlapped {
+				c.Add("ballast_snapshots_overlapped", 1)
+			}
+		case "Keys", "Values":
+			if cfg.Ballast > 0 && o.Overlapped {
+				c.Add("ballast_snapshots_overlapped", 1)
+			}
+		}
+	}
+	switch cfg.Family {
+	case "round-setx":
+		c.Add("rounds_setx", 1)
+	case "round-setx-delete":
+		// the key was there, exactly one Delete removed it, only SetX calls named it
+		// besides: whatever the order, it cannot be in the map at the end
+		c.Add("rounds_setx_delete", 1)
+		for _, o := range ops {
+			if o.Client == len(cfg.Threads) && o.Kind == "Get" && o.Arg == cfg.RoundKey && o.OK {
+				c.Witness = map[string]any{"config": cfg.String(), "history": hist.Render(ops), "extra": extra}
+				c.Failf("setx-created-key", "key %d was deleted by the only call that could remove it and no Set/SetNx/Map ever named it, yet after %d concurrent SetX threads it is in the map with value %d: SetX created a key", cfg.RoundKey, len(cfg.Threads)-1, o.Out)
+				return false
+			}
+		}
+	}
 	if cfg.Family == "round-setnx" {
 		c.Add("rounds_setnx", 1)
 		if nxTrue != 1 {
@@ -457,7 +732,7 @@ func judge(c *ev.Case, cfg config, ops []hist.Op, extra string) bool {
 			return false
 		}
 	}
-	switch hist.Check(kvModel(cfg.Init), ops, 20*time.Second) {
+	switch hist.Check(kvModel(cfg.modelInit()), ops, 20*time.Second) {
 	case hist.Illegal:
 		c.Witness = map[string]any{"config": cfg.String(), "history": hist.Render(ops), "extra": extra}
 		c.Failf("nonlinearizable", "history of %d SafeKV operations is not explained by any atomic order on a plain map (config %s)", len(ops), cfg.String())
@@ -467,12 +742,20 @@ func judge(c *ev.Case, cfg config, ops []hist.Op, extra string) bool {
 		return true
 	}
 	c.Add("histories_checked", 1)
+	if strings.HasPrefix(c.Engine, "ctl") {
+		c.Add("histories_checked/ctl", 1)
+	} else {
+		c.Add("histories_checked/free", 1)
+	}
+	if cfg.Ballast > 0 {
+		c.Add("ballast_histories", 1)
+	}
 	return true
 }
 
 func ctlCase(c *ev.Case) {
 	rng := c.Rng
-	cfg := genConfig(rng, 4, 4, 9)
+	cfg := genConfig(rng, 4, 4, 9, true)
 	sc := sched.Config{Seed: rng.Uint64(), MaxSteps: 8000}
 	switch rng.Intn(3) {
 	case 0:
@@ -543,7 +826,7 @@ func ctlCase(c *ev.Case) {
 
 func freeCase(c *ev.Case) {
 	rng := c.Rng
-	cfg := genConfig(rng, 8, 5, 20)
+	cfg := genConfig(rng, 8, 5, 20, false)
 	cfg.Strategy = "go-runtime"
 	kv := setup(cfg)
 	kept := kv.All()
@@ -591,7 +874,7 @@ func pairsCase(c *ev.Case) {
 	n := len(allKinds)
 	a := allKinds[c.Index%n]
 	b := allKinds[(c.Index/n)%n]
-	kv := mapz.NewSafeKV[int64, int64](rng.Pick(0, 1, 8))
+	kv := &store{SafeKV: mapz.NewSafeKV[int64, int64](rng.Pick(0, 1, 8))}
 	g := rng.Pick(4, 6, 8, 12, 16)
 	iters := c.Run().N(400, 2500)
 	var wg sync.WaitGroup
@@ -613,7 +896,7 @@ func pairsCase(c *ev.Case) {
 				case t%3 == 2:
 					kind = allKinds[lr.Intn(n)]
 				}
-				o := genOp(lr, kind, t, j)
+				o := genOp(lr, kind, t, j, false)
 				do(kv, rec, 0, o)
 			}
 			// sanity over what this goroutine saw: sizes within the key universe
@@ -835,6 +1118,7 @@ func bulkCase(c *ev.Case, controlled bool) {
 				return
 			}
 			c.Add("bulk_snapshots_checked", 1)
+			c.Add("bulk_snapshots/"+o.kind, 1)
 		}
 	}
 	c.Add("bulk_cases", 1)
@@ -853,10 +1137,11 @@ func clipStr(s string, n int) string {
 
 func main() {
 	r := ev.New("C12")
-	r.Rule("pairs: one case = two SafeKV methods hammered concurrently (plus a random mix) under the race detector, all 16x16 ordered pairs; distinct = distinct method pairs. ctl: (initial map, per-thread operation lists, schedule trace), distinct = hash of all three with at least one context switch. free: distinct canonical histories with an overlapping pair.")
+	r.Rule("pairs: one case = two SafeKV methods hammered concurrently (plus a random mix) under the race detector, all 16x16 ordered pairs; distinct = distinct method pairs. ctl: (initial map, per-thread operation lists, schedule trace), distinct = hash of all three with at least one context switch. free: distinct canonical histories with an overlapping pair. Argument classes inside histories (zero value, no keys, repeated / never-stored key, ballast of 33..257 untouched entries, early-stopped Range/All) are drawn per operation from the case's generator and have observation floors.")
 	r.Assume("user callbacks never re-enter the SafeKV")
 	r.Assume("the controlled engine interleaves at lock/unlock granularity (mutex shim); unsynchronised accesses are the race detector's job")
-	r.Assume("histories use 3 keys and unique written values; at most 4 (controlled) / 8 (free) threads")
+	r.Assume("histories name 3 keys (plus one key that is never stored) and write unique non-zero values or the zero value; one history in eight runs on a map that also holds 33..257 further entries which only whole-map operations touch; at most 4 (controlled) / 8 (free) threads")
+	r.Assume("Range / All are stopped early by the caller only under controlled schedules, where a read lock that is never released is decided as a deadlock instead of hanging the run")
 	sched.JitterOn = os.Getenv("VERIF_JITTER") == "1"
 
 	np := len(allKinds) * len(allKinds)
@@ -881,7 +1166,27 @@ func main() {
 	r.Require("ops_overlapped", 1000)
 	r.Require("pair_runs", int64(np))
 	r.Require("rounds_setnx", 100)
+	r.Require("rounds_setx", 100)
+	r.Require("rounds_setx_delete", 100)
 	r.Require("bulk_snapshots_checked", 10000)
+	for _, k := range []string{"Keys+Values", "Range", "All", "GetWithMap", "Len"} {
+		r.Require("bulk_snapshots/"+k, 1000)
+	}
+	// every method took part in overlapping operations of checked histories
+	for _, k := range allKinds {
+		r.Require("overlapped/"+k, 1000)
+	}
+	r.Require("histories_checked/ctl", int64(nctl/2))
+	r.Require("histories_checked/free", int64(nfree/2))
+	// argument classes
+	r.Require("stopped_early/Range", 300)
+	r.Require("stopped_early/All", 300)
+	r.Require("zero_value_stored", 1000)
+	r.Require("zero_value_read", 300)
+	r.Require("delete_no_keys", 300)
+	r.Require("getwithmap_no_keys", 200)
+	r.Require("ballast_histories", 1000)
+	r.Require("ballast_snapshots_overlapped", 500)
 	r.Finish()
 }
 
